@@ -34,7 +34,7 @@ EXHAUSTIVE = {t: ["all 512 single-bit flips of the proof per triple", "reply len
 
 def generate(ctx, rng):
     quick = ctx.tier == "quick"
-    ntriples = 14 if quick else 400
+    ntriples = 14 if quick else 2000
     for t in range(ntriples):
         base = {"token": rng.randbytes(64), "key": rng.randbytes(32), "nonce": rng.randbytes(32),
                 "key_form": rng.choice(["bytes", "hex", "HEX"]), "token_form": rng.choice(["bytes", "hex", "HEX"]),
@@ -48,7 +48,7 @@ def generate(ctx, rng):
         yield ("header", t), {**base, "family": "header"}
     # histories on one object: genuine authentication, then (a) the 12 h lifetime passes and the re-authentication is answered
     # with an altered reply, or (b) authenticate is called again on the still-valid session with a wrong key / altered reply
-    for j in range(24 if quick else 1200):
+    for j in range(24 if quick else 6000):
         yield ("session", j), {"token": rng.randbytes(64), "key": rng.randbytes(32), "nonce": None, "other": rng.randbytes(32),
                                "key_form": rng.choice(["bytes", "hex"]), "token_form": rng.choice(["bytes", "hex"]), "prior": False,
                                "tid": 30000 + j, "family": "session",
@@ -64,11 +64,11 @@ def generate(ctx, rng):
     for split in range(1, 72):
         yield ("genuine-split", split), {"token": rng.randbytes(64), "key": rng.randbytes(32), "nonce": rng.randbytes(32), "splits": [split],
                                          "key_form": "bytes", "token_form": "bytes", "prior": False, "tid": 40000 + split, "family": "genuine"}
-    for j in range(20 if quick else 1500):
+    for j in range(20 if quick else 7500):
         yield ("genuine-split3", j), {"token": rng.randbytes(64), "key": rng.randbytes(32), "nonce": rng.randbytes(32),
                                       "splits": sorted(rng.sample(range(1, 72), 2)), "key_form": "hex", "token_form": "bytes", "prior": False,
                                       "tid": 41000 + j, "family": "genuine"}
-    for j in range(60 if quick else 3000):
+    for j in range(60 if quick else 15000):
         yield ("genuine-extra", j), {"token": rng.randbytes(64), "key": rng.randbytes(32), "nonce": rng.randbytes(32),
                                      "key_form": rng.choice(["bytes", "hex", "HEX"]), "token_form": rng.choice(["bytes", "hex", "HEX"]),
                                      "prior": False, "tid": 10000 + j, "family": "genuine",
